@@ -221,6 +221,33 @@ def decision_table(fnode):
     table maps each truth assignment (tuple of bools in atom order) to the returned expression node
     or constant.  Raises AnalysisIncomplete on statements outside the if/return/docstring shape."""
     atoms = []
+    # simple local definitions (name = expression) are inlined into the tests that use them
+    import copy as _copy
+    local_defs = {}
+
+    class _Inline(ast.NodeTransformer):
+        def visit_Name(self, node):
+            if isinstance(node.ctx, ast.Load) and node.id in local_defs:
+                return _copy.deepcopy(local_defs[node.id])
+            return node
+
+    def _inl(expr):
+        return ast.fix_missing_locations(_Inline().visit(_copy.deepcopy(expr)))
+
+    def _prepare(stmts):
+        out = []
+        for st in stmts:
+            if isinstance(st, ast.Assign) and len(st.targets) == 1 and isinstance(st.targets[0], ast.Name):
+                local_defs[st.targets[0].id] = _inl(st.value)
+                continue
+            if isinstance(st, ast.If):
+                st = ast.If(test=_inl(st.test), body=_prepare(st.body), orelse=_prepare(st.orelse))
+            elif isinstance(st, ast.Return) and st.value is not None:
+                st = ast.Return(value=_inl(st.value))
+            out.append(st)
+        return out
+
+    fnode = ast.FunctionDef(name=fnode.name, args=fnode.args, body=_prepare(list(fnode.body)), decorator_list=[], lineno=fnode.lineno, col_offset=0)
 
     def collect_atoms(stmts):
         for st in stmts:
